@@ -5,6 +5,14 @@ def M(id, props, file, old, new, desc='', expect='caught', count=1):
 	return dict(id=id, props=props if isinstance(props, list) else [props], desc=desc, expect=expect,
 	            edits=[dict(file=file, old=old, new=new, count=count)])
 
+def ML(id, props, file, edits, desc='', expect='caught'):
+	"""line-addressed edits (generated C): edits = [(line, old, new), ...]"""
+	return dict(id=id, props=props if isinstance(props, list) else [props], desc=desc, expect=expect,
+	            edits=[dict(file=file, line=l, old=o, new=n) for (l, o, n) in edits])
+
+KC = 'src/gambit/_cython/kmers.c'
+MC = 'src/gambit/_cython/metric.c'
+
 MUTATIONS = [
 	# ---- C01 ------------------------------------------------------------------------------------
 	M('c01-fwd-end-k-1', ['C01'], 'src/gambit/kmers.py', 'haystack.find(kmerspec.prefix, start, -kmerspec.k)', 'haystack.find(kmerspec.prefix, start, -kmerspec.k - 1)', 'forward search stops one early (misses match flush with end)'),
@@ -15,4 +23,19 @@ MUTATIONS = [
 	M('c01-set-nosort', ['C01'], 'src/gambit/sigs/calc.py', '\t\tsig.sort()\n', '', 'SetAccumulator.signature unsorted'),
 	M('c01-array-dtype', ['C01'], 'src/gambit/sigs/calc.py', 'return np.flatnonzero(self.array).astype(self._dtype)', 'return np.flatnonzero(self.array)', 'ArrayAccumulator wrong dtype'),
 	M('c01-rev-pos', ['C01'], 'src/gambit/kmers.py', 'loc + kmerspec.prefix_len - 1, True)', 'loc + kmerspec.prefix_len, True)', 'reverse match position off by one'),
+	# ---- C07 (generated C of kmers.pyx) ------------------------------------------------------------
+	ML('c07-swap-CG', ['C07', 'C01'], KC, [(18309, '+ 1', '+ 2'), (18328, '+ 2', '+ 1')], 'C and G digits swapped in the forward encoder'),
+	ML('c07-len-guard', ['C07'], KC, [(18070, '> 32', '> 33')], '33-mers accepted'),
+	ML('c07-casefold', ['C07'], KC, [(18271, '& 223', '& 95')], 'case fold also clears bit 7: bytes 0xC1.. accepted'),
+	ML('c07-rc-digit', ['C07', 'C01'], KC, [(18781, '+ 2', '+ 1')], 'reverse-complement encoder maps C to 1'),
+	ML('c07-revcomp-other', ['C07'], KC, [(19672, '= __pyx_v_nuc;', "= 'N';")], 'non-nucleotide bytes replaced by N in revcomp'),
+	ML('c07-decode-oob', ['C07'], KC, [(19226, '((__pyx_v_k - __pyx_v_i) - 1)', '(__pyx_v_k - __pyx_v_i)')], 'decoder writes one past the end (ASan) and shifts output'),
+	# ---- C02 / C15 (generated C of metric.pyx, all 9 fused specialisations) -------------------------
+	M('c02-lt', ['C02', 'C15'], MC, '(__pyx_v_a <= __pyx_v_b)', '(__pyx_v_a < __pyx_v_b)', 'a<=b -> a<b: equal elements counted twice', count='any'),
+	M('c02-drop-tail', ['C02', 'C15'], MC, '__pyx_v_u = (__pyx_v_u + (__pyx_v_M - __pyx_v_j));', ';', 'tail of second array not added to the union', count='any'),
+	M('c02-empty-one', ['C02', 'C15'], MC, '      __pyx_r = 0.0;\n', '      __pyx_r = 1.0;\n', 'two empty sets at distance 1', count='any'),
+	dict(id='c02-trunc-compare', props=['C02', 'C15'], desc='both comparisons truncated to 32 bits (width dependent)', expect='caught', edits=[
+		dict(file=MC, old='(__pyx_v_b <= __pyx_v_a)', new='((uint32_t)__pyx_v_b <= (uint32_t)__pyx_v_a)', count='any'),
+		dict(file=MC, old='(__pyx_v_a <= __pyx_v_b)', new='((uint32_t)__pyx_v_a <= (uint32_t)__pyx_v_b)', count='any')]),
+	M('c02-cast-narrow', ['C02', 'C15'], 'src/gambit/metric.py', '\t\treturn arr.view(new_dt)', "\t\treturn arr.astype('u4')", 'signed arrays converted to u4 (64-bit values truncated)'),
 ]
